@@ -481,6 +481,8 @@ func (e *c15Env) pathNames(path []int) []string {
 
 func runC15(r *engine.Run) {
 	r.Rule = "E2 explicit-state breadth-first search per band (14 names) from the constructor state over AddChannel with six argument kinds {fresh frequency with the CFList DR range, fresh frequency from 1.5 GHz up (the upper part of the 100 Hz code range) with the CFList DR range, fresh frequency 6..6, an existing standard frequency 6..6, frequency 0 (placeholder) 0..5, fresh frequency with an inverted DR range (accepted or refused, as the band chooses: a refused call changes nothing)} and Disable/Enable with index in {-1, 0, last standard, first custom, n-1, n} (fixed plans: {-1,0,7,8,15,16,63,64,71,72,95,96}); depth quick 4 / thorough 6 (fixed plans 3); canonical state = hook snapshot of both channel slices; successor = replay of the shortest path on a fresh instance + one op. The reference model (a Go slice of {freq,min,max,enabled,custom}) is stepped in lock-step: after every transition the op's error/no-error and the snapshot must equal the model; in every distinct state all observers are compared with the model (index sets and partitions, accessors with invalid indices, lookups by frequency and frequency+DR - also for the 32 single-bit neighbours of the first and last channel frequency -, GetCFList for 7 versions) and every frequency/DR/CFList the band produces is fed to the MAC encoders (RXParamSetupReq, NewChannelReq, DLChannelReq, PingSlotChannelReq, BeaconFreqReq, the LinkADRReqs planned for three device subsets, CFList in a join-accept) and decoded back."
+	r.Rule += " E3 (schedules): one configured band object, new in every execution, read by two or three threads at once (channel lookups by frequency and by frequency + data-rate; a network server answers many devices from one band configuration): every interleaving of the instrumented accesses (preemption-bounded and unbounded with state-key pruning); every thread gets the answers it gets alone."
+	mergeSchedSummary(r, "C15")
 	bandConstructionStability(r)
 	r.Assume("canonical state = both channel slices: every band method reads only these plus tables that are immutable after construction (argued in DESIGN.md A.2), so equal snapshots have equal futures")
 	r.Assume("a custom channel with frequency 0 placed first makes the library offer no CFList at all; the property does not define that case: recorded, not judged")
